@@ -258,11 +258,11 @@ def run_unsigned(ctx) -> RuleResult:
         for path in ctx.paths_auto(module, func):
             for step in path:
                 nodes = []
-                if step.kind == "stmt" and isinstance(step.node, ast.AugAssign) and isinstance(step.node.op, (ast.Sub, ast.Pow)):
+                if step.kind == "stmt" and isinstance(step.node, ast.AugAssign) and isinstance(step.node.op, (ast.Sub, ast.Pow, ast.Mult)):
                     nodes.append(("aug", step.node))
                 for raw in step_exprs(step):
                     for sub in ast.walk(raw):
-                        if isinstance(sub, ast.BinOp) and isinstance(sub.op, (ast.Sub, ast.Pow)):
+                        if isinstance(sub, ast.BinOp) and isinstance(sub.op, (ast.Sub, ast.Pow, ast.Mult)):
                             nodes.append(("bin", sub))
                 for kind, node in nodes:
                     ckey = (id(node), id(step.vars))
@@ -284,6 +284,19 @@ def run_unsigned(ctx) -> RuleResult:
                                 "R-UNSIGNED", module, qual, node,
                                 f"'{U(getattr(node, '_orig', node))[:60]}' relies on a component-wise guard of the unsigned "
                                 f"exponents that is not (or no longer) in place: {why}",
+                                derivation=describe_path(path)))
+                    if isinstance(op, ast.Mult) and (_is_exponent_value(left) or _is_exponent_value(right)):
+                        other = right if _is_exponent_value(left) else left
+                        n += 1
+                        small = isinstance(other, ast.Constant) or _is_exponent_value(other) and False
+                        result.ob(f"{fq}: uint32 exponents are not scaled by a run-time value", small,
+                                  module.loc(step.orig), _txt(other)[:80])
+                        if not small:
+                            result.add(Finding(
+                                "R-UNSIGNED", module, qual, node,
+                                f"'{U(getattr(node, '_orig', node))[:60]}' multiplies unsanitised numpy.uint32 exponents by a "
+                                f"run-time value: the product stays uint32 and wraps silently at 2**32, so a different "
+                                f"monomial is stored instead of raising - widen first (astype(int))",
                                 derivation=describe_path(path)))
                     if isinstance(op, ast.Pow) and _is_exponent_value(right):
                         n += 1
